@@ -1765,3 +1765,250 @@ Proof.
   - intros F HF. exists 0. pose proof (TF4_bounds F HF). split; [lia|]. cbn [dcfg]. in_tf4 HF; vm_compute; reflexivity.
   - left. exists 0. split; [layout; lia | vm_compute; reflexivity].
 Qed.
+
+(* ====================================================================================== *)
+(* wpw= submitted empty keeps the Wi-Fi password                                           *)
+(* ====================================================================================== *)
+Definition in_wifi (i : Z) : Prop := O_WIFI_PWD <= i < O_WIFI_PWD + Z_WIFI_PWD.
+Definition hits_wifi (r : list Z) : Prop :=
+  nthz r 5 = 0 /\ ~ (nthz r 6 + nthz r 4 <= O_WIFI_PWD \/ O_WIFI_PWD + Z_WIFI_PWD <= nthz r 6).
+(* every recognised field whose destination is WIFI_PWD (that is: wpw=) has an empty value *)
+Definition empty_wifi (s : list Z) : Prop :=
+  forall a r, opens_at s a r -> hits_wifi r -> (len s <= a + 4 \/ rd s (a + 4) = 38).
+Definition safeW (p : pvars) : Prop := tk p = 0 -> (toff p + bsize p <= O_WIFI_PWD \/ O_WIFI_PWD + Z_WIFI_PWD <= toff p).
+Definition Wk (c0 : list Z) (m : mem) : Prop :=
+  (forall i, in_wifi i -> i <> O_WIFI_PWD -> nthz (ncfg m) i = nthz c0 i) /\
+  (nthz (ncfg m) O_WIFI_PWD = nthz c0 O_WIFI_PWD \/ nthz (ncfg m) O_WIFI_PWD = 0).
+Definition W (c0 : list Z) (p : pvars) (m : mem) : Prop := Wk c0 m /\ (cur p <> 0 -> safeW p).
+
+Lemma wifi_rows : forallb (fun r => negb (nthz r 5 =? 0) || (nthz r 6 + nthz r 4 <=? O_WIFI_PWD) || (O_WIFI_PWD + Z_WIFI_PWD <=? nthz r 6)
+                                  || ((nthz r 6 =? O_WIFI_PWD) && (nthz r 4 =? Z_WIFI_PWD))) VARTAB = true.
+Proof. vm_compute. reflexivity. Qed.
+Lemma hits_wifi_row r : In r VARTAB -> hits_wifi r -> nthz r 6 = O_WIFI_PWD /\ nthz r 4 = Z_WIFI_PWD.
+Proof.
+  intros Hin [K N]. pose proof wifi_rows as R. rewrite forallb_forall in R. specialize (R r Hin).
+  rewrite !orb_true_iff, negb_true_iff, Z.eqb_neq, !Z.leb_le, andb_true_iff, !Z.eqb_eq in R. 
+  destruct R as [[[R|R]|R]|R]; [congruence | exfalso; apply N; auto | exfalso; apply N; auto | exact R].
+Qed.
+
+Lemma Wk_same c0 m m' : ncfg m' = ncfg m -> Wk c0 m -> Wk c0 m'.
+Proof. intros E [A B]. unfold Wk. rewrite E. auto. Qed.
+Lemma Wk_unch c0 m m' : (forall i, in_wifi i -> nthz (ncfg m') i = nthz (ncfg m) i) -> Wk c0 m -> Wk c0 m'.
+Proof.
+  intros E [A B]. split.
+  - intros i Hi Hn. rewrite E by exact Hi. auto.
+  - rewrite E by (unfold in_wifi; layout; lia). exact B.
+Qed.
+
+Section EmptyWifi.
+  Variables (sg : bool) (s : list Z) (c0 : list Z).
+  Hypothesis Hs : empty_wifi s.
+
+  Lemma W_fill p m v : inv p m -> cur p <> 0 -> offs p < bsize p -> W c0 p m -> W c0 (fst (fill p m v)) (snd (fill p m v)).
+  Proof.
+    intros I Hc Ho [Wm Ws]. pose proof (i_offs p m I). specialize (Ws Hc). unfold fill.
+    assert (S : forall i, in_wifi i -> nthz (ncfg (snd (store p m (offs p) v))) i = nthz (ncfg m) i).
+    { intros i Hi. apply store_keep; [exact I | exact Hc | lia | unfold in_wifi in Hi; layout; lia |].
+      intros K. specialize (Ws K). unfold in_wifi in Hi. lia. }
+    pose proof (store_same_p p m (offs p) v I Hc ltac:(lia)) as E. cbv zeta in E.
+    destruct (store p m (offs p) v) as [p' m']. cbn [fst snd] in *. destruct E as [_ [B [C D]]].
+    split; [apply (Wk_unch c0 m); assumption|]. intros _. unfold safeW in *. simp_rec. rewrite B, C, D. exact Ws.
+  Qed.
+  Lemma W_close p m : inv p m -> cur p <> 0 -> W c0 p m ->
+    W c0 (close_var (fst (terminate p m))) (action sg (fst (terminate p m)) (snd (terminate p m))).
+  Proof.
+    intros I Hc [Wm Ws]. pose proof (i_offs p m I) as Hoff. destruct (i_tgt p m I Hc) as [Hb _]. specialize (Ws Hc).
+    pose proof (term_ok p m I Hc) as T. unfold terminate in *.
+    set (j := if offs p <? bsize p then offs p else bsize p - 1).
+    assert (Hj : 0 <= j < bsize p) by (unfold j; destruct (offs p <? bsize p) eqn:E; [apply Z.ltb_lt in E|]; lia).
+    replace (if offs p <? bsize p then store p m (offs p) 0 else store p m (bsize p - 1) 0) with (store p m j 0) in *
+      by (unfold j; destruct (offs p <? bsize p); reflexivity).
+    assert (S : forall i, in_wifi i -> nthz (ncfg (snd (store p m j 0))) i = nthz (ncfg m) i).
+    { intros i Hi. apply store_keep; [exact I | exact Hc | exact Hj | unfold in_wifi in Hi; layout; lia |].
+      intros K. specialize (Ws K). unfold in_wifi in Hi. lia. }
+    destruct (store p m j 0) as [p3 m3]. cbn [fst snd] in *. destruct T as [T1 _].
+    split; [|intros H; simp_rec; congruence].
+    apply (Wk_unch c0 m); [|exact Wm]. intros i Hi. rewrite <- (S i Hi).
+    apply action_unch; [exact (i_ncfg _ _ T1) | unfold in_wifi in Hi; layout; lia |].
+    pose proof (act_range_outside (cur p3) (O_WIFI_PWD, Z_WIFI_PWD) ltac:(right; cbn; auto)) as O.
+    unfold outside, in_rng, in_wifi in *. cbn [fst snd] in O. lia.
+  Qed.
+End EmptyWifi.
+
+Section EmptyWifi2.
+  Variables (sg : bool) (s : list Z) (c0 : list Z).
+  Hypothesis Hs : empty_wifi s.
+
+  Lemma W_body p m a : inv p m -> W c0 p m -> 0 <= a < len s ->
+    let '(a', p', m') := vars_body sg s p m a in W c0 p' m'.
+  Proof.
+    intros I Hw Ha. unfold vars_body.
+    pose proof (vb_open_ok s p m a I Ha) as O.
+    assert (Ho : let '(p1, m1, a1) := vb_open s p m a in
+                 W c0 p1 m1 \/
+                 (cur p1 <> 0 /\ tk p1 = 0 /\ toff p1 = O_WIFI_PWD /\ offs p1 = 0 /\ a1 = a + 4 /\
+                  (len s <= a1 \/ rd s a1 = 38) /\ ncfg m1 = ncfg m)).
+    { unfold vb_open. destruct (cur p =? 0) eqn:Ec; [|left; exact Hw]. apply Z.eqb_eq in Ec.
+      destruct (4 <=? len s - a) eqn:E4; [|left; exact Hw]. apply Z.leb_le in E4. cbv zeta. rewrite !chk_in by lia.
+      destruct (rd s (a + 3) =? 61) eqn:E61; [|left; exact Hw]. apply Z.eqb_eq in E61.
+      destruct Hw as [Wm _].
+      destruct (find_var (rd s a) (rd s (a + 1)) (rd s (a + 2))) as [r|] eqn:F.
+      - set (m0 := if nthz r 5 =? 3 then match cmd m with None => set_cmd m (Some (zeros CMD_SIZE)) | Some _ => m end else m).
+        assert (E0 : ncfg m0 = ncfg m) by (unfold m0; destruct (nthz r 5 =? 3); [destruct (cmd m)|]; reflexivity).
+        pose proof (conj (proj1 Ha) (conj E4 (conj E61 F))) as Hop.
+        destruct (guard_ok r (ncfg m)).
+        + destruct (Z.eq_dec (nthz r 5) 0) as [K0|K0].
+          * destruct (Z_le_dec (nthz r 6 + nthz r 4) O_WIFI_PWD) as [D1|D1];
+              [left; split; [apply (Wk_same c0 m); assumption | intros _; unfold safeW; simp_rec; auto]|].
+            destruct (Z_le_dec (O_WIFI_PWD + Z_WIFI_PWD) (nthz r 6)) as [D2|D2];
+              [left; split; [apply (Wk_same c0 m); assumption | intros _; unfold safeW; simp_rec; auto]|].
+            assert (Hh : hits_wifi r) by (split; [exact K0 | lia]).
+            destruct (hits_wifi_row r (opens_in s a r Hop) Hh) as [Eo _].
+            right. simp_rec. pose proof (find_var_ok _ _ _ _ F) as R. unfold row_okb in R. cbv zeta in R.
+            rewrite !andb_true_iff in R. destruct R as [[_ R0] _]. apply negb_true_iff in R0. apply Z.eqb_neq in R0.
+            repeat split; auto. exact (Hs a r Hop Hh).
+          * left. split; [apply (Wk_same c0 m); assumption | intros _; unfold safeW; simp_rec; intros K; congruence].
+        + left. split; [apply (Wk_same c0 m); assumption | intros H; simp_rec; congruence].
+      - left. split; [exact Wm | intros H; simp_rec; congruence]. }
+    destruct (vb_open s p m a) as [[p1 m1] a1]. destruct O as [I1 [Ha1 _]].
+    destruct (cur p1 =? 0) eqn:Ec.
+    { destruct Ho as [Ho|[Hc1 _]]; [exact Ho | apply Z.eqb_eq in Ec; congruence]. }
+    apply Z.eqb_neq in Ec.
+    destruct Ho as [Ho|[_ [Tk [To [Of [Ea [Hem En]]]]]]].
+    - pose proof (vb_fill_ok s p1 m1 a1 I1 Ec ltac:(lia)) as Fl.
+      pose proof (g_fill s (W c0) (W_fill c0) p1 m1 a1 I1 Ho Ec ltac:(lia)) as Fl2.
+      destruct (vb_fill s p1 m1 a1) as [[p2 m2] a2]. destruct Fl as [I2' [Hc2 Ha2]].
+      apply (g_close sg s (W c0) (W_close sg c0)); [exact I2' | exact Fl2 | congruence | lia].
+    - (* wpw= with an empty value: only the terminator at WIFI_PWD[0] is written *)
+      destruct (i_tgt p1 m1 I1 Ec) as [Hb1 _].
+      assert (Efill : vb_fill s p1 m1 a1 = (p1, m1, a1)).
+      { unfold vb_fill. destruct ((offs p1 <? bsize p1) && (a1 <? len s)) eqn:E; [|reflexivity].
+        apply andb_true_iff in E. destruct E as [_ E]. apply Z.ltb_lt in E. cbv zeta. rewrite (chk_in s a1 m1) by lia.
+        destruct Hem as [Hem|Hem]; [lia|]. rewrite Hem. reflexivity. }
+      rewrite Efill.
+      assert (Ecl : vb_close sg s p1 m1 a1 = (let '(p3, m3) := terminate p1 m1 in (a1 + 1, close_var p3, action sg p3 m3))).
+      { unfold vb_close. replace (bsize p1 <=? offs p1) with false by (symmetry; apply Z.leb_gt; lia).
+        destruct (len s - 1 <=? a1) eqn:E; [reflexivity|]. apply Z.leb_gt in E. cbv zeta. rewrite chk_in by lia.
+        destruct Hem as [Hem|Hem]; [lia|]. rewrite Hem. reflexivity. }
+      rewrite Ecl.
+      pose proof (term_ok p1 m1 I1 Ec) as T. unfold terminate in *.
+      replace (offs p1 <? bsize p1) with true in * by (symmetry; apply Z.ltb_lt; lia).
+      destruct (store_spec p1 m1 (offs p1) 0 I1 Ec ltac:(lia)) as [[_ [E _]]|[[K _]|[[K _]|[K _]]]]; try congruence.
+      rewrite E in *. destruct T as [T1 _].
+      split; [|intros H; simp_rec; congruence].
+      destruct Hw as [[Wa Wb] _]. pose proof (i_ncfg p1 m1 I1) as L1.
+      assert (Eidx : toff p1 + offs p1 = O_WIFI_PWD) by lia.
+      apply (Wk_unch c0 (set_ncfg m1 (upd (ncfg m1) (toff p1 + offs p1) 0))).
+      + intros i Hi. apply action_unch; [exact (i_ncfg _ _ T1) | unfold in_wifi in Hi; layout; lia |].
+        pose proof (act_range_outside (cur p1) (O_WIFI_PWD, Z_WIFI_PWD) ltac:(right; cbn; auto)) as Oa.
+        unfold outside, in_rng, in_wifi in *. cbn [fst snd] in Oa. lia.
+      + unfold Wk. simp_rec. rewrite Eidx. split.
+        * intros i Hi Hn. rewrite nthz_upd_other by (rewrite ?L1; unfold in_wifi in Hi; layout; lia). rewrite En. apply Wa; assumption.
+        * right. apply nthz_upd_same. rewrite L1. layout; lia.
+  Qed.
+
+  Lemma W_loop : forall fuel p m a, inv p m -> W c0 p m -> 0 <= a ->
+    let '(p', m') := vars_loop fuel sg s p m a in W c0 p' m'.
+  Proof.
+    induction fuel as [|f IH]; intros p m a I Hw Ha; cbn [vars_loop]; [exact Hw|].
+    destruct (a <? len s) eqn:E; [|exact Hw]. apply Z.ltb_lt in E.
+    pose proof (vars_body_ok sg s p m a I ltac:(lia)) as B. pose proof (W_body p m a I Hw ltac:(lia)) as B2.
+    destruct (vars_body sg s p m a) as [[a' p'] m']. destruct B as [I' [Ha' _]]. apply IH; [exact I' | exact B2 | lia].
+  Qed.
+End EmptyWifi2.
+
+Lemma empty_wifi_drop seg k : 0 <= k <= len seg -> empty_wifi seg -> empty_wifi (drop k seg).
+Proof.
+  intros Hk H a r Ho Hh. pose proof (H (k + a) r (opens_at_drop seg k a r Hk Ho) Hh) as E.
+  destruct Ho as [Ha _]. rewrite len_drop by lia. rewrite rd_drop by lia.
+  replace (k + (a + 4)) with (k + a + 4) by lia. lia.
+Qed.
+Lemma wifi_not_pw i : in_wifi i -> ~ pw_area i.
+Proof. unfold in_wifi, pw_area. layout; lia. Qed.
+
+Theorem C14_empty_wifi_password_kept_thm : forall sg d seg i,
+  dev_ok d -> in_wifi i -> empty_wifi seg ->
+  nthz (dcfg (fst (recv FIXED sg d seg))) i = nthz (dcfg d) i.
+Proof.
+  intros sg d seg i D Hi Hrows. unfold recv. cbv zeta.
+  set (m0 := {| ncfg := upd (dcfg d) O_LocationPwd 0; temp := fresh_temp; cmd := dcmd d; rb := 0; flt := [] |}).
+  assert (F0 : frame_ok (dcfg d) (upd (dcfg d) O_LocationPwd 0))
+    by (apply frame_upd; [exact (d_len d D) | layout; lia | layout; lia]).
+  assert (I0 : inv (dpv d) m0).
+  { constructor; unfold m0; simp_rec.
+    - exact (d_ival d D).
+    - exact (d_offs d D).
+    - intros H. pose proof (d_cur d D). congruence.
+    - rewrite (proj1 F0). exact (d_len d D).
+    - unfold fresh_temp, len. rewrite repeat_length. layout; lia.
+    - exact (d_cmd d D).
+    - reflexivity.
+    - exists 0. unfold cell; simp_rec. split; [layout; lia|]. split; [intros; lia|]. split.
+      + intros j Hj. unfold fresh_temp. apply nth_error_repeat. lia.
+      + right. split; [left; exact (d_cur d D) | left; reflexivity].
+    - right. exact (email_term_frame _ _ F0 (d_email d D)). }
+  assert (U0 : forall j, in_wifi j -> nthz (ncfg m0) j = nthz (dcfg d) j).
+  { intros j Hj. unfold m0; simp_rec. unfold in_wifi in Hj.
+    apply nthz_upd_other; [rewrite (d_len d D); layout; lia | layout; lia | layout; lia]. }
+  (* through the request *)
+  assert (Wm : let '(p, m) := parse_request FIXED sg seg (dpv d) m0 in Wk (ncfg m0) m).
+  { assert (W0 : Wk (ncfg m0) m0) by (split; auto).
+    unfold parse_request. destruct (len seg =? 0); [exact W0|].
+    set (pa := if step (dpv d) =? STEP_TYPE_ then
+                 if is_prefix (s_get ++ s_url) seg then set_step (dpv d) STEP_GET_ TYPE_GET_
+                 else if is_prefix (s_post ++ s_url) seg then set_step (dpv d) STEP_POST_ TYPE_POST_ else dpv d
+               else dpv d).
+    assert (Ia : inv pa m0 /\ cur pa = 0).
+    { unfold pa. destruct (step (dpv d) =? STEP_TYPE_); [|split; [exact I0 | exact (d_cur d D)]].
+      destruct (is_prefix (s_get ++ s_url) seg); [split; [apply inv_set_step; exact I0 | exact (d_cur d D)]|].
+      destruct (is_prefix (s_post ++ s_url) seg); [split; [apply inv_set_step; exact I0 | exact (d_cur d D)] | split; [exact I0 | exact (d_cur d D)]]. }
+    destruct Ia as [Ia Hca]. cbv zeta.
+    set (k := if step pa =? STEP_POST_ then count_hdr_end (S (length seg)) FIXED seg 0 else 0).
+    assert (Hk : k = 0 \/ (k = 1 /\ 4 <= len seg)).
+    { unfold k. destruct (step pa =? STEP_POST_); [apply count_fixed; lia | left; reflexivity]. }
+    set (pb := if 0 <? k then set_step pa STEP_PARSE_VARS_ (typ pa) else pa).
+    assert (Ib : inv pb m0 /\ cur pb = 0).
+    { unfold pb. destruct (0 <? k); [split; [apply inv_set_step; exact Ia | exact Hca] | auto]. }
+    destruct Ib as [Ib Hcb].
+    destruct (step pb =? STEP_PARSE_VARS_); [|exact W0].
+    destruct (len seg <? 3 * k) eqn:El; [apply (Wk_same (ncfg m0) m0); [reflexivity | exact W0]|]. apply Z.ltb_ge in El.
+    assert (Hk3 : 0 <= 3 * k <= len seg) by (pose proof (len_nonneg seg); clearbody k; lia).
+    set (seg' := drop (3 * k) seg).
+    pose proof (proto_loop_ok seg' (S (length seg')) pb m0 0 (conj Ib (or_introl Hcb)) ltac:(lia) (or_introl Hcb) ltac:(unfold len; lia)) as Pk.
+    pose proof (proto_loop_shape seg' (S (length seg')) pb m0 0 (or_introl Hcb)) as Ps.
+    destruct (proto_loop (S (length seg')) FIXED seg' pb m0 0) as [p1 m1]. destruct Pk as [I1 Hc1].
+    assert (W1 : Wk (ncfg m0) m1).
+    { apply (Wk_unch (ncfg m0) m0); [|exact W0]. intros j Hj. unfold in_wifi in Hj.
+      destruct Ps as [_ [E|[on E]]]; rewrite E; [reflexivity|].
+      unfold flag_set, set_flags. apply nthz_blit_other; [layout; lia | rewrite (i_ncfg pb m0 Ib), len_enc32; layout; lia | layout; lia | rewrite len_enc32; layout; lia]. }
+    unfold parse_vars.
+    pose proof (inv_fresh p1 m1 I1 Hc1) as If.
+    pose proof (vars_loop_ok sg seg' (S (length seg')) p1 (set_temp m1 fresh_temp) 0 If ltac:(lia) (or_introl Hc1) ltac:(unfold len; lia)) as L.
+    pose proof (W_loop sg seg' (ncfg m0) (empty_wifi_drop seg (3 * k) Hk3 Hrows) (S (length seg')) p1 (set_temp m1 fresh_temp) 0 If) as L3.
+    destruct (vars_loop (S (length seg')) sg seg' p1 (set_temp m1 fresh_temp) 0) as [p' m']. destruct L as [I' Hc'].
+    assert (W00 : W (ncfg m0) p1 (set_temp m1 fresh_temp)) by (split; [apply (Wk_same _ m1); [reflexivity | exact W1] | intros H; congruence]).
+    destruct (L3 W00 ltac:(lia)) as [Wl _].
+    apply (Wk_unch (ncfg m0) m'); [|exact Wl]. intros j Hj.
+    apply spill_unch; [exact (i_ncfg p' m' I') | unfold in_wifi in Hj; layout; lia | apply wifi_not_pw; exact Hj]. }
+  pose proof (parse_request_ok sg seg (dpv d) m0 I0 (d_cur d D)) as Pk.
+  destruct (parse_request FIXED sg seg (dpv d) m0) as [p m]. destruct Pk as [I Hc].
+  destruct (typ p =? TYPE_UNKNOWN_); [reflexivity|].
+  destruct (typ p =? TYPE_POST_); [|reflexivity].
+  destruct (matched p <? 4); [reflexivity|].
+  destruct ((0 <? char_val sg (rb m)) && negb (char_val sg (rb m) =? 2)); [reflexivity|].
+  cbn [fst dcfg].
+  pose proof (restore_password_ok (dcfg d) m (d_len d D) (d_email d D) (i_ncfg p m I) (inv_email p m I Hc)) as Rk.
+  cbv zeta in Rk. destruct Rk as [_ [_ [R3 _]]].
+  assert (Wr : Wk (ncfg m0) (restore_password FIXED (dcfg d) (ncfg m) m)).
+  { apply (Wk_unch (ncfg m0) m); [|exact Wm]. intros j Hj.
+    apply restore_unch; [exact (d_len d D) | exact (i_ncfg p m I) | unfold in_wifi in Hj; layout; lia | apply wifi_not_pw; exact Hj]. }
+  set (c := ncfg (restore_password FIXED (dcfg d) (ncfg m) m)) in *.
+  assert (Ls : len (slice (dcfg d) O_WIFI_PWD Z_WIFI_PWD) = Z_WIFI_PWD) by (apply len_slice; rewrite ?(d_len d D); layout; lia).
+  destruct Wr as [Wa Wb]. change (ncfg (restore_password FIXED (dcfg d) (ncfg m) m)) with c in Wa, Wb. unfold in_wifi in Hi.
+  destruct (nthz c O_WIFI_PWD =? 0) eqn:Ez.
+  - replace i with (O_WIFI_PWD + (i - O_WIFI_PWD)) at 1 by lia.
+    rewrite nthz_blit_in by (rewrite ?R3, ?Ls; layout; lia). rewrite nthz_slice by (layout; lia). f_equal. lia.
+  - apply Z.eqb_neq in Ez. destruct (Z.eq_dec i O_WIFI_PWD) as [->|Hn].
+    + destruct Wb as [Wb|Wb]; [rewrite Wb; apply U0; unfold in_wifi; layout; lia | congruence].
+    + rewrite Wa by (unfold in_wifi; auto). apply U0. unfold in_wifi. lia.
+Qed.
